@@ -399,6 +399,8 @@ class Interp:
             v = self.split_none(v)
         if isinstance(cls, tuple):
             return any(self.isinstance_(v, c) for c in cls)
+        if isinstance(cls, type):
+            return isinstance(v, cls)  # host classes (ast node classes)
         if isinstance(v, SV) and isinstance(v.pytype, dict):
             # symbolic dynamic type: pytype = {"tok": z3 term, "universe": {...}}
             raise OutOfReach("symbolic dynamic type")
